@@ -75,7 +75,14 @@ def make_data(case, d):
         df = pd.DataFrame({"aux": extra, "dim_0": rows, "target": target})
     if case["cv"]["kind"] == "presplit":
         k = max(2, n // 2)
-        df.index = ["train"] * k + ["test"] * (n - k)
+        lay = case.get("presplit_layout") or "train_first"
+        if lay == "train_first":
+            df.index = ["train"] * k + ["test"] * (n - k)
+        elif lay == "test_first":
+            df.index = ["test"] * (n - k) + ["train"] * k
+        else:
+            # the pre-defined parts are told apart by the row labels, wherever the rows are
+            df.index = ["train" if (i % 3 != 1) else "test" for i in range(n)]
     return df
 
 
@@ -112,7 +119,11 @@ def expected_records(case):
         X, y = df[["dim_0"] if "dim_0" in df.columns else [c for c in df.columns if c != "target"]], df["target"]
         for j in range(case["n_strategies"]):
             Est = doubles.CountingClassifier if case["task"] == "tsc" else doubles.CountingRegressor
-            for fold, (tr, te) in enumerate(make_cv(case["cv"]).split(df, y)):
+            if case["cv"]["kind"] == "presplit":
+                folds = [(np.flatnonzero(np.asarray(df.index) == "train"), np.flatnonzero(np.asarray(df.index) == "test"))]
+            else:
+                folds = list(make_cv(case["cv"]).split(df, y))
+            for fold, (tr, te) in enumerate(folds):
                 e = clone(Est(tag="ref", shift=0.35 * j)).fit(X.iloc[tr], y.iloc[tr])
                 out[("strat%d" % j, "ds%d" % d, fold, "test")] = (np.asarray(te), y.iloc[te].to_numpy(), e.predict(X.iloc[te]))
                 if case["predict_on_train"]:
@@ -388,6 +399,7 @@ def cases(draw, all_points=True):
         cv["k"] = draw(st.integers(2, 3))
     if cvk == "single":
         cv["rs"] = draw(st.integers(0, 100))
+    layout = draw(st.sampled_from(["train_first", "interleaved", "test_first"]))
     store = draw(st.sampled_from(["disk", "disk", "disk", "ram"]))
     return {
         "task": draw(st.sampled_from(["tsc", "tsc", "tsr"])), "n_datasets": draw(st.integers(1, 2)),
@@ -395,6 +407,7 @@ def cases(draw, all_points=True):
         "cv": cv, "store": store, "predict_on_train": draw(st.sampled_from([True, True, False])),
         "save_fitted": draw(st.booleans()) if store == "disk" else False,
         "crash_points": "all", "extra_column": draw(st.booleans()), "more_features": draw(st.sampled_from([0, 0, 1, 2, 3])),
+        "presplit_layout": layout,
     }
 
 
